@@ -29,7 +29,7 @@ def find_loop(f):
     return head, events[0], flags[0], written[0]
 
 
-def loop_iteration(ctx, prog, nevents=2):
+def loop_iteration(ctx, prog, nevents=2, chans=('A', 'B')):
     """-> (handles dict, [(state, result)]) for one iteration from an arbitrary state satisfying the loop invariant"""
     f = prog.method('IoLoop', 'run_io_loop')
     head, l_events, l_listening, l_written = find_loop(f)
@@ -98,7 +98,7 @@ def loop_iteration(ctx, prog, nevents=2):
     ex = io_executor(ctx, prog, unwind=nevents + 3, extra=mio_summaries() + time_summaries() + [(r'^(mio::)?Poll::poll$', poll_stub), (r'^verif_handle_event$', handler_stub), (r'^verif_is_done$', done_stub)])
     ex.cut_block = (re.escape(f.name) + '$', head, 1)
     a, b = z3.BitVec('chan_a', 16), z3.BitVec('chan_b', 16)
-    st, w = build_steady(prog, [('A', a, {'consumers': 0}), ('B', b, {'consumers': 0})], sealed=sym('sealed0', z3.BoolSort()))   # a close may already be queued
+    st, w = build_steady(prog, [(nm_, {'A': a, 'B': b}[nm_], {'consumers': 0}) for nm_ in chans], sealed=sym('sealed0', z3.BoolSort()))   # a close may already be queued
     st.roots['clock'] = Clock()
     poll = PollModel()
     st.roots['poll'] = poll
@@ -110,7 +110,7 @@ def loop_iteration(ctx, prog, nevents=2):
     stream_interest = sym('stream.interest', BV64)
     st.pc.append(z3.Or(stream_interest == READABLE, stream_interest == WRITABLE, stream_interest == (READABLE | WRITABLE)))
     poll.regs.append([stream, b64(0xffff + 1), stream_interest, True])
-    for nm_ in ('A', 'B'):
+    for nm_ in chans:
         e = slot_entry(w, nm_)
         poll.regs.append([e[1].value.fields[0], z3.ZeroExt(48, w.slots[nm_]['id']), b64(READABLE), chans_reg])
     high, low = sym('high_water', BV64), sym('low_water', BV64)
